@@ -17,6 +17,7 @@ sys.path.insert(0, os.path.dirname(os.path.dirname(os.path.abspath(__file__))))
 from circuits.core import events as EV  # noqa: E402
 from circuits.core import helpers as HP  # noqa: E402
 from circuits.core import manager as M  # noqa: E402
+from circuits.core import pollers as PL  # noqa: E402
 from circuits.core.components import BaseComponent  # noqa: E402
 from circuits.core.events import Event  # noqa: E402
 from circuits.core.handlers import handler  # noqa: E402
@@ -262,9 +263,114 @@ class SchedEvent:
         return self.flag
 
 
+class CtrlPipe:
+    """the poller's self-pipe: bytes written and not yet read; a thread blocked in select/poll/epoll waits on it"""
+
+    R, W = 9001, 9002
+
+    def __init__(self):
+        self.pending = 0
+
+    @property
+    def flag(self):
+        return self.pending > 0
+
+
+class OsDouble:
+    """stands in for the `os` module inside circuits.core.pollers: the control pipe lives in CtrlPipe"""
+
+    def __init__(self, ctrl):
+        self._ctrl = ctrl
+
+    def pipe(self):
+        return (CtrlPipe.R, CtrlPipe.W)
+
+    def write(self, fd, data):
+        if fd == CtrlPipe.W:
+            self._ctrl.pending += len(data)
+            return len(data)
+        return os.write(fd, data)
+
+    def read(self, fd, n):
+        if fd == CtrlPipe.R:
+            if not self._ctrl.pending:
+                raise BlockingIOError(11, 'control pipe empty')
+            k = min(n, self._ctrl.pending)
+            self._ctrl.pending -= k
+            return b'\0' * k
+        return os.read(fd, n)
+
+    def close(self, fd):
+        if fd in (CtrlPipe.R, CtrlPipe.W):
+            return None
+        return os.close(fd)
+
+    def __getattr__(self, k):
+        return getattr(os, k)
+
+
+class SelectDouble:
+    """stands in for the `select` module inside circuits.core.pollers.  Only the control pipe is ever registered in this
+    harness; a wait with nothing ready blocks in the scheduler whatever its timeout (a timeout of 0 polls)."""
+
+    def __init__(self, ctrl):
+        import select as real
+        self._ctrl = ctrl
+        for k in dir(real):
+            if k.startswith(('POLL', 'EPOLL')):
+                setattr(self, k, getattr(real, k))
+
+    def _wait(self, timeout, zero):
+        if not self._ctrl.flag and not (timeout is not None and timeout == zero):
+            SchedEvent.sched.block(('event', self._ctrl))
+        return self._ctrl.flag
+
+    def select(self, r, w, x, timeout=None):
+        assert [f for f in list(r) + list(w)] in ([CtrlPipe.R], []), 'only the control pipe is registered in this harness'
+        if CtrlPipe.R in r and self._wait(timeout, 0):
+            return [CtrlPipe.R], [], []
+        return [], [], []
+
+    def poll(self):
+        return _PollObject(self, self.POLLIN)
+
+    def epoll(self, *a, **k):
+        return _PollObject(self, self.EPOLLIN)
+
+
+class _PollObject:
+    def __init__(self, mod, flag_in):
+        self.mod = mod
+        self.flag_in = flag_in
+        self.table = {}
+
+    def register(self, fd, mask):
+        self.table[fd] = mask
+
+    def modify(self, fd, mask):
+        self.table[fd] = mask
+
+    def unregister(self, fd):
+        if fd not in self.table:
+            raise KeyError(fd)
+        del self.table[fd]
+
+    def poll(self, timeout=None):
+        if CtrlPipe.R in self.table and self.mod._wait(timeout, 0):
+            return [(CtrlPipe.R, self.flag_in)]
+        return []
+
+    def close(self):
+        pass
+
+
 TRACED = [M.Manager._fire, M.Manager.fireEvent, M.Manager._dispatcher, M.Manager.tick, M.Manager._flush, M._EventQueue.append,
           M._EventQueue.dispatchEvents, EV.generate_events.reduce_time_left, HP.FallBackGenerator._on_generate_events,
           HP.FallBackGenerator.resume]
+
+
+TRACED_POLLERS = [PL.BasePoller._on_generate_events, PL.BasePoller.resume, PL.BasePoller._read_ctrl,
+                  PL.Select._generate_events, PL.Poll._generate_events, PL.Poll._process, PL.EPoll._generate_events, PL.EPoll._process]
 
 
 class _NoAtexit:
@@ -273,15 +379,19 @@ class _NoAtexit:
         return None
 
 
-def make_harness(n_firers, events_per_firer, max_preempt, bound, timer=False):
+def make_harness(n_firers, events_per_firer, max_preempt, bound, timer=False, poller=None):
     # traced by function name (and file), so that a re-compiled variant of a function is traced as well
-    codes = {getattr(f, '__func__', f).__code__.co_name for f in TRACED}
+    codes = {getattr(f, '__func__', f).__code__.co_name for f in TRACED + (TRACED_POLLERS if poller else [])}
 
     def harness(g):
-        saved = (M.RLock, HP.Event, M.atexit)
+        saved = (M.RLock, HP.Event, M.atexit, PL.os, PL.select)
         M.RLock = SchedRLock
         HP.Event = SchedEvent
         M.atexit = _NoAtexit
+        if poller:
+            ctrl = CtrlPipe()
+            PL.os = OsDouble(ctrl)
+            PL.select = SelectDouble(ctrl)
         sched = Sched(g, codes, max_preempt, bound)
         SchedRLock.sched = sched
         SchedEvent.sched = sched
@@ -289,7 +399,7 @@ def make_harness(n_firers, events_per_firer, max_preempt, bound, timer=False):
             body(g, sched)
         finally:
             sched.abort()
-            M.RLock, HP.Event, M.atexit = saved
+            M.RLock, HP.Event, M.atexit, PL.os, PL.select = saved
             SchedRLock.sched = None
             SchedEvent.sched = None
 
@@ -308,6 +418,11 @@ def make_harness(n_firers, events_per_firer, max_preempt, bound, timer=False):
                     event.reduce_time_left(50)
 
         app = App()
+        if poller:
+            # the poller's generate_events handler replaces the fall-back idle wait: the loop blocks in select/poll/epoll
+            # on the control pipe, and resume() writes to it
+            getattr(PL, poller)().register(app)
+            app.flush()
         fired = {}
 
         def loop():
@@ -384,11 +499,20 @@ def canaries():
             ["with self._lock:\n            # Modifications", "            handling = self._currently_handling\n\n            self._queue.append(event, channel, priority)"],
             ["handling = self._currently_handling\n        with self._lock:\n            # Modifications", "            self._queue.append(event, channel, priority)"]), ['lost-wakeup']),
         ('no-reduce-on-foreign-fire', 'fallback', lambda: mutate(M.Manager, '_fire', 'handling.reduce_time_left(0)', 'pass'), ['lost-wakeup']),
+        ('poller-resume-does-not-write', 'poller-Select', lambda: mutate(PL.BasePoller, 'resume', 'os.write(self._ctrl_send, b\'\\0\')', 'pass'), ['lost-wakeup']),
+        ('epoll-ignores-ctrl-pipe', 'poller-EPoll', lambda: mutate(PL.EPoll, '__init__', 'self._updateRegistration(self._ctrl_recv)', 'pass'), ['lost-wakeup']),
         ('batch-moved-with-extend-clear', 'fallback', lambda: mutate(
             M._EventQueue, 'dispatchEvents',
             "self._flush_batch = count = len(self._queue)\n        while count:\n            count -= 1\n            heappush(self._priority_queue, self._queue.popleft())",
             "self._priority_queue.extend(self._queue)\n        self._queue.clear()\n        __import__('heapq').heapify(self._priority_queue)\n        self._flush_batch = len(self._priority_queue)"), ['event-lost']),
     ]
+
+
+def enc_poller(name):
+    base = [f for f in TRACED if 'FallBackGenerator' not in f.__qualname__]
+    cls = getattr(PL, name)
+    return base + [PL.BasePoller._on_generate_events, PL.BasePoller.resume, PL.BasePoller._read_ctrl, cls._generate_events] + (
+        [cls._process] if name != 'Select' else [])
 
 
 def parts(tier):
@@ -399,12 +523,17 @@ def parts(tier):
             Part('fallback-with-timer', make_harness(1, 1, 2, 100, timer=True), bounds={'firing_threads': 1, 'events_per_thread': 1, 'preemptions': 2, 'window_per_preemption': 100,
                                                                                     'timer': 'a handler bounds every idle wait to 50 s'},
                  encoded=ENC, budget_s=90),
-        ]
-    return [
+        ] + [Part('poller-' + name, make_harness(1, 1, 2, 60, poller=name),
+                  bounds={'poller': name, 'firing_threads': 1, 'events_per_thread': 1, 'preemptions': 2, 'window_per_preemption': 60,
+                          'wake_up': 'through the control pipe (doubles for os.pipe/os.write/os.read and select/poll/epoll inside circuits.core.pollers)'},
+                  encoded=enc_poller(name), budget_s=90) for name in ('Select', 'Poll', 'EPoll')]
+    return [Part('poller-' + name, make_harness(1, 2, 2, 110, poller=name),
+                 bounds={'poller': name, 'firing_threads': 1, 'events_per_thread': 2, 'preemptions': 2, 'window_per_preemption': 110},
+                 encoded=enc_poller(name), budget_s=1200) for name in ('Select', 'Poll', 'EPoll')] + [
         Part('fallback-with-timer', make_harness(1, 2, 2, 160, timer=True), bounds={'firing_threads': 1, 'events_per_thread': 2, 'preemptions': 2, 'window_per_preemption': 160,
                                                                                 'timer': 'a handler bounds every idle wait to 50 s'}, encoded=ENC, budget_s=1800),
         Part('fallback', make_harness(1, 2, 2, 160), bounds={'firing_threads': 1, 'events_per_thread': 2, 'preemptions': 2, 'window_per_preemption': 160}, encoded=ENC, budget_s=1800),
-        Part('fallback-3-preemptions', make_harness(1, 1, 3, 45), bounds={'firing_threads': 1, 'events_per_thread': 1, 'preemptions': 3, 'window_per_preemption': 45}, encoded=ENC, budget_s=2400),
+        Part('fallback-3-preemptions', make_harness(1, 1, 3, 22), bounds={'firing_threads': 1, 'events_per_thread': 1, 'preemptions': 3, 'window_per_preemption': 22}, encoded=ENC, budget_s=2400),
         Part('two-firers', make_harness(2, 1, 2, 70), bounds={'firing_threads': 2, 'events_per_thread': 1, 'preemptions': 2, 'window_per_preemption': 70}, encoded=ENC, budget_s=2400),
     ]
 
